@@ -9,7 +9,7 @@ CHECKS = {
  "C02": ("exploration", "Seeded search over invocation/edit histories against an independent reference model (own walker, own records): every observed skip must be justified by a record taken at the target's last successful completion and by the model's comparison (same file set, per file mtime-or-content, same command outputs). Faults: EIO / short reads on zinoma's own file-system calls, and outcomes of the system calls made while a record is stored (write failing with ENOSPC / EIO, short or interrupted writes, open failing); files dated before 1970.", "§7 C02"),
  "C03": ("exploration", "Same history engine on untouched trees, multi-project layouts, identical command text / relative paths in different project directories, other targets failing in the same invocation: a target with inputs, a definite model record and content-equal resources must not have its script started. Short and interrupted write(2) calls while records are stored are injected (no errors: records must be complete); builds that empty their own output directory lying among their inputs; imports and -p through symbolic links.", "§7 C03"),
  "C04": ("exploration", "Seeded search over schedules and graph shapes (deep chains, fan-in/fan-out beyond 2x the shipped queue capacity, 34-90 roots on one command line, very long target names, command resources printing more than a pipe buffer): the run must never reach a state with no runnable task and no enabled event before main returns (stall detection is exact in a one-thread simulation).", "§7 C04"),
- "C05": ("fault_enumeration", "For sampled scenarios and schedules: zinoma killed at EVERY scheduling decision index of the run, SIGINT at every (quick: every 2nd) index, every script outcome (exit!=0, signal, EAGAIN, a failing middle command that only `sh -e` notices), every strict prefix of each record (quick: 32+16 lengths; real torn writes also arise because crash points fall between the write() calls of the record), single-bit flips (tree unchanged / own input rewritten / declared output altered), every byte zeroed with an output altered, garbage and foreign records, the interruptions again followed by a revert of the edited inputs, and each failing script combined with an I/O error on zinoma's own n-th stat/unlink/open, every write(2)/open made while records are stored failing with ENOSPC / EIO / EACCES or being short / interrupted (quick: ~24 evenly spaced writes), and a directory lying where the record should be; each followed by a recovery invocation judged against the complete run R0 and the scripts' real exit statuses.", "§7 C05"),
+ "C05": ("fault_enumeration", "For sampled scenarios and schedules: zinoma killed at EVERY scheduling decision index of the run, SIGINT at every (quick: every 2nd) index, every script outcome (exit!=0, signal, EAGAIN, a failing middle command that only `sh -e` notices), every strict prefix of each record (quick: 32+16 lengths; real torn writes also arise because crash points fall between the write() calls of the record), single-bit flips (tree unchanged / own input rewritten / declared output altered), every byte zeroed with an output altered, garbage and foreign records, the interruptions again followed by a revert of the edited inputs, and each failing script combined with an I/O error on zinoma's own n-th stat/unlink/open, every write(2)/open made while records are stored failing with ENOSPC / EIO / EACCES or being short / interrupted (quick: ~24 evenly spaced writes), and a directory or a named pipe lying where the record should be; each followed by a recovery invocation judged against the complete run R0 and the scripts' real exit statuses.", "§7 C05"),
  "C06": ("exploration", "Seeded search over --watch sessions (populated and clean trees) with bursts of edits gated to land while idle, inside a chosen build, or back to back; version-stamped virtual scripts; at the final idle point outputs must equal the stamp of the final inputs and services must run an instance started from them.", "§7 C06"),
  "C07": ("exploration", "Seeded search over schedules x failing subsets injected through the fault plan (non-zero exit, death by signal, EAGAIN at spawn) in one-shot and --watch runs: non-zero exit naming a failed target, dependents never started / stay blocked, warning + still watching in watch mode, no stall.", "§7 C07"),
  "C08": ("exploration", "Seeded search over schedules with duplicate / double-spelled requests, shared dependencies and --clean T: counts of starts+skips per target and byte comparison of outsiders' state and outputs before/after. Also: target names too long for a record to fit in a directory entry (nothing may be written under a shortened name: every other entry of a work directory counts as outsider state).", "§7 C08"),
